@@ -55,6 +55,7 @@ type Contract struct {
 	Requires []*Clause
 	Ensures  []*Clause
 	Captures []*Clause // closure invariants over captured variables (checked at MakeClosure, assumed at entry, re-proved at exit)
+	Tracks   *Clause   // definition of this closure's visitor invariant vinv(self, z)
 	Relies   []*Clause // data-structure invariants assumed at entry and NOT asserted at call sites (rely/guarantee; listed in evidence)
 	After    map[string][]*Clause // call site (callee.ordinal) -> facts assumed right after that call (separation facts the logic cannot express; every use is listed in evidence)
 	Proves   []*Clause // proved for the body but not exported to callers (internal facts that would clash with an assumed abstraction such as allocator freshness)
@@ -98,7 +99,7 @@ type ContractFile struct {
 }
 
 var clauseKeywords = map[string]bool{"func": true, "interface": true, "extern": true, "functype": true, "global": true, "ghost": true,
-	"props": true, "requires": true, "relies": true, "captures": true, "ensures": true, "proves": true, "postulate": true, "after": true, "modifies": true, "loop": true, "decreases": true, "inline": true,
+	"props": true, "requires": true, "relies": true, "captures": true, "tracks": true, "ensures": true, "proves": true, "postulate": true, "after": true, "modifies": true, "loop": true, "decreases": true, "inline": true,
 	"trusted": true, "overflow": true, "nosafety": true, "lockexempt": true, "from:": true, "end": true}
 
 var tagRe = regexp.MustCompile(`^\[([A-Za-z0-9_, ]+)\]\s*`)
@@ -239,6 +240,14 @@ func parseContractFile(path string) (*ContractFile, error) {
 				} else {
 					cur.Ensures = append(cur.Ensures, cl)
 				}
+			case "tracks":
+				// the visitor invariant of this closure: vinv(self, z) is DEFINED as this expression (over the
+				// captured cells, vis.n, vis.stop and the logical parameter z)
+				e, err := parseExpr(rest)
+				if err != nil {
+					return nil, fail("%v", err)
+				}
+				cur.Tracks = &Clause{Kind: "tracks", Src: rest, E: e, Line: rc.line}
 			case "modifies":
 				cur.HasMod = true
 				cur.Modifies = append(cur.Modifies, splitTargets(rest)...)
